@@ -34,6 +34,89 @@ def call_func(it, fi: FuncInfo, *args, self_val=None, **kwargs):
     return it.call_function(AFunc(fi, fi.node, fi.module, self_val=self_val, cls=fi.cls), list(args), dict(kwargs))
 
 
+def construct_with_defaults(it, cls: ClassInfo, **given):
+    """An instance of `cls` built by its constructor: the given keyword arguments plus a plain value for every other parameter
+    without a default (False for a bool, '{' for a str, an empty list for a sequence)."""
+    init = cls.find_method("__init__")
+    kw = {}
+    if init is not None:
+        a = init.node.args
+        pos = a.args[1:]
+        ndef = len(a.defaults)
+        required = [p for p in (pos[: len(pos) - ndef] if ndef else pos)] + [p for p, d in zip(a.kwonlyargs, a.kw_defaults) if d is None]
+        names = {p.arg for p in pos} | {p.arg for p in a.kwonlyargs}
+        for p in required:
+            ann = ast.unparse(p.annotation) if p.annotation is not None else ""
+            kw[p.arg] = False if "bool" in ann else "{" if "str" in ann else AList([]) if any(x in ann for x in ("List", "Tuple", "Sequence", "Iterable")) else Unknown(p.arg)
+        for k, v in given.items():
+            if k in names or a.kwarg is not None:
+                kw[k] = v
+    return it.construct(cls, [], kw)
+
+
+def strip_public(it, P: Program, value):
+    """(value without its enclosing, recorded tag) as RemoveEnclosingMiddleware.transform_entry produces them for a field value -
+    through the public interface only (no private helper is named)."""
+    rcls = P.cls("middlewares.enclosing", "RemoveEnclosingMiddleware")
+    rm = it.construct(rcls, [], {"allow_inplace_modification": True})
+    e = new_obj(it, P, "model", "Entry", entry_type="a", key="k", start_line=0, raw="r",
+                fields=AList([new_obj(it, P, "model", "Field", key="f", value=value, start_line=1)]))
+    out = call(it, rm, "transform_entry", e, Unknown("lib"))
+    v = it.get_attr(it.iterate(it.get_attr(out, "fields"))[0], "value")
+    meta = it.get_attr(out, "parser_metadata")
+    rec = meta.items.get(call(it, AClass(rcls), "metadata_key")) if isinstance(meta, ADict) else None
+    tag = rec.items.get("f") if isinstance(rec, ADict) else None
+    return (v, tag)
+
+
+NUMERIC_FIELD, PLAIN_FIELD = "year", "note"
+
+
+def enclose_public(it, P: Program, mw, value, tag, apply_int_rule: bool):
+    """The value AddEnclosingMiddleware.transform_entry gives a field whose recorded enclosing is `tag` (None: nothing recorded);
+    the integer rule applies to the fields named in the module's numeric-field list (`year`), not to others (`note`)."""
+    rcls = P.cls("middlewares.enclosing", "RemoveEnclosingMiddleware")
+    key = NUMERIC_FIELD if apply_int_rule else PLAIN_FIELD
+    e = new_obj(it, P, "model", "Entry", entry_type="a", key="k", start_line=0, raw="r",
+                fields=AList([new_obj(it, P, "model", "Field", key=key, value=value, start_line=1)]))
+    if tag is not None:
+        meta = it.get_attr(e, "parser_metadata")
+        meta.items[call(it, AClass(rcls), "metadata_key")] = ADict({key: tag})
+    out = call(it, mw, "transform_entry", e, Unknown("lib"))
+    return it.get_attr(it.iterate(it.get_attr(out, "fields"))[0], "value")
+
+
+def enclosing_behaviour(it, P: Program, inst) -> dict:
+    """How an AddEnclosing middleware instance is configured, observed through what it does (no private attribute is read):
+    `default` - the delimiter it puts around a value without a recorded enclosing; `reuse` - whether a recorded enclosing is
+    restored; `ints` - whether a number in a numeric field is enclosed; `inplace` - the public allow_inplace_modification."""
+    mk = lambda c, *a, **k: new_obj(it, P, "model", c, *a, **k)
+    out = {"default": None, "reuse": None, "ints": None, "inplace": None}
+    try:
+        out["inplace"] = it.get_attr(inst, "allow_inplace_modification")
+    except (Raised, Unsupported):
+        pass
+    try:
+        rm = it.construct(P.cls("middlewares.enclosing", "RemoveEnclosingMiddleware"), [], {"allow_inplace_modification": True})
+        e = mk("Entry", entry_type="a", key="k", start_line=0, raw="r", fields=AList([
+            mk("Field", key="title", value='"quoted"', start_line=1), mk("Field", key="year", value="2020", start_line=2)]))
+        e = call(it, rm, "transform_entry", e, Unknown("lib"))
+        e = call(it, inst, "transform_entry", e, Unknown("lib"))
+        vals = {it.get_attr(f, "key"): it.get_attr(f, "value") for f in it.iterate(it.get_attr(e, "fields"))}
+        fresh = mk("Entry", entry_type="a", key="k2", start_line=0, raw="r", fields=AList([mk("Field", key="note", value="plain", start_line=1)]))
+        fresh = call(it, inst, "transform_entry", fresh, Unknown("lib"))
+        note = it.get_attr(it.iterate(it.get_attr(fresh, "fields"))[0], "value")
+        out["default"] = "{" if note == "{plain}" else '"' if note == '"plain"' else repr(note)
+        out["reuse"] = vals.get("title") == '"quoted"' if out["default"] == "{" else vals.get("title") == "{quoted}" if False else vals.get("title") == '"quoted"'
+        if out["default"] == '"':
+            out["reuse"] = None          # a quote default and a recorded quote look alike: not observable with this probe
+        out["ints"] = vals.get("year") in ("{2020}", '"2020"')
+        out["observed"] = (vals, note)
+    except (Raised, Unsupported, LoopBound) as e_:
+        out["error"] = str(e_)
+    return out
+
+
 def raise_site(P: Program, r: Raised) -> str:
     n = r.node
     if n is None:
@@ -576,3 +659,47 @@ def no_unsafe_memoisation(P: Program, rep: Report, rule: str, modules: List[str]
             if why:
                 rep.fail(rule, f"memoised:{fi.qualname}", fi.loc, f"{fi.qualname} is memoised with @{d}: " + "; ".join(why))
     rep.ok(rule, f"memoisation:{'+'.join(modules)}", "bibtexparser/", f"{n} functions scanned", nontrivial=False)
+
+
+MUTATORS = {"append", "extend", "insert", "pop", "remove", "clear", "update", "setdefault", "add", "discard", "sort", "reverse", "popitem", "appendleft"}
+
+
+def no_shared_mutable_defaults(P: Program, rep: Report, rule: str, modules: List[str]):
+    """A parameter default that is a mutable object (list / dict / set literal, comprehension or constructor call) is created once and
+    shared by every call that omits the argument: harmless while it is only read, a defect as soon as the function stores it on the
+    instance, returns it or mutates it - two objects built without the argument then share one container."""
+    n = 0
+    for modname in modules:
+        mod = P.module(modname)
+        for f in [x for x in P.all_funcs if x.module is mod]:
+            a = f.node.args
+            pos = a.posonlyargs + a.args
+            pairs = list(zip(pos[len(pos) - len(a.defaults):], a.defaults)) + [(p_, d_) for p_, d_ in zip(a.kwonlyargs, a.kw_defaults) if d_ is not None]
+            for prm, d in pairs:
+                n += 1
+                mutable = isinstance(d, (ast.List, ast.Dict, ast.Set, ast.ListComp, ast.DictComp, ast.SetComp)) or \
+                    (isinstance(d, ast.Call) and ast.unparse(d.func).split(".")[-1] in ("list", "dict", "set", "OrderedDict", "defaultdict", "deque", "Counter", "bytearray"))
+                if not mutable:
+                    continue
+                escapes = []
+                for x in own_nodes(f.node):
+                    if isinstance(x, (ast.Assign, ast.AnnAssign)) and isinstance(getattr(x, "value", None), ast.Name) and x.value.id == prm.arg:
+                        tg = x.targets if isinstance(x, ast.Assign) else [x.target]
+                        if any(isinstance(t, (ast.Attribute, ast.Subscript)) for t in tg):
+                            escapes.append(("stored", x.lineno))
+                    if isinstance(x, ast.Return) and isinstance(x.value, ast.Name) and x.value.id == prm.arg:
+                        escapes.append(("returned", x.lineno))
+                    if isinstance(x, ast.Call) and isinstance(x.func, ast.Attribute) and isinstance(x.func.value, ast.Name) and x.func.value.id == prm.arg \
+                            and x.func.attr in MUTATORS:
+                        escapes.append(("mutated", x.lineno))
+                    if isinstance(x, (ast.Assign, ast.AugAssign, ast.Delete)):
+                        tg = x.targets if isinstance(x, (ast.Assign, ast.Delete)) else [x.target]
+                        if any(isinstance(t, ast.Subscript) and isinstance(t.value, ast.Name) and t.value.id == prm.arg for t in tg):
+                            escapes.append(("mutated", x.lineno))
+                    if isinstance(x, ast.Call) and any(isinstance(arg, ast.Name) and arg.id == prm.arg for arg in list(x.args) + [k.value for k in x.keywords]) \
+                            and not (isinstance(x.func, ast.Name) and x.func.id in ("list", "tuple", "set", "dict", "sorted", "len", "iter", "enumerate", "isinstance", "str", "repr", "frozenset", "any", "all")):
+                        escapes.append(("handed on", x.lineno))
+                rep.check(not escapes, rule, f"mutable-default:{f.qualname}:{prm.arg}", f"{mod.relpath}:{d.lineno}",
+                          f"{f.qualname}: the default of `{prm.arg}` ({ast.unparse(d)}) is one object shared by all calls that omit the argument, and the "
+                          f"function lets it escape ({', '.join(f'{k} at line {ln}' for k, ln in escapes[:3])})")
+    rep.count(f"parameter_defaults_scanned:{rule}", n)
